@@ -10,7 +10,10 @@ def build(u):
     u.item("src/source.rs", "pub struct OriginalLocation {")
     u.spec("codec_spec.rs")
     u.spec("lines_spec.rs")
+    u.spec("codec_all_spec.rs")
+    u.spec("codec_next_bounds.rs")
     u.spec("codec_thm.rs")
+    u.spec("lines_all_spec.rs")
     u.spec("lines_thm.rs")
     u.theorems += ["theorem_roundtrip", "theorem_attribution", "lemma_enc_kept", "lemma_iter_is_all", "theorem_lines_only",
                    "lemma_run_digits", "lemma_run_semis", "lemma_run_comma", "lemma_step"]
